@@ -863,11 +863,11 @@ def check_package(ctx, spec):
 
 def campaigns(ctx):
     return [
-        Campaign('tag', tag_spec(), check_tag, 3000, 60000),
-        Campaign('relkey', relkey_spec(), check_relkey, 1500, 25000),
-        Campaign('genkey', genkey_spec(), check_genkey, 1500, 25000),
-        Campaign('manifest', manifest_spec(), check_manifest, 500, 6000),
-        Campaign('package', package_spec(), check_package, 100, 700),
+        Campaign('tag', tag_spec(), check_tag, 3000, 40000),
+        Campaign('relkey', relkey_spec(), check_relkey, 1500, 15000),
+        Campaign('genkey', genkey_spec(), check_genkey, 1500, 15000),
+        Campaign('manifest', manifest_spec(), check_manifest, 500, 4000),
+        Campaign('package', package_spec(), check_package, 100, 500),
     ]
 
 
